@@ -239,7 +239,7 @@ PROPERTIES = {
     "C19": {
         "level": "exploration",
         "rule": ("declared module graphs: 1..12 modules (some nested), trees / stars / rings / cliques / random multigraphs with self loops through two gates of "
-                 "one module, multi edges, disconnected parts, unconnected gates, chains through 0..15 transit gates (16 hops = the documented limit); for each: the "
+                 "one module, multi edges, in two fifths of the graphs a random subset of the modules owns its chain endpoints as the members of one gate cluster port[0..k) (parallel links then start at gates of one name), disconnected parts, unconnected gates, chains through 0..15 transit gates (16 hops = the documented limit); for each: the "
                  "global view, the view spanned from EVERY module, three views over subsets of the modules (Topology::from_modules: exactly the listed modules and the edges whose two ends are both listed), a node-filtered and an edge-filtered view, dijkstra from EVERY source. Oracle = reference digraph "
                  "from the declaration (one edge per chain endpoint, labelled with the two endpoint gates) + BFS: node multiset, edge multiset (src, dst, start "
                  "gate, end gate), gate owners match edge ends, edges_for (by path and by node handle: count and start node), connected / bidirectional by definition, filter results, dijkstra keys = reachable "
@@ -250,9 +250,11 @@ PROPERTIES = {
         ],
         "floor": {
             "quick": {"spanned_views_checked": 200000, "dijkstra_targets_checked": 1000000, "filtered_views_checked": 50000, "edges_compared": 2000000,
-                      "graphs_with_self_loops": 5000, "graphs_with_16_hop_chains": 5000, "subset_views_checked": 50000},
+                      "graphs_with_self_loops": 5000, "graphs_with_16_hop_chains": 5000, "subset_views_checked": 50000,
+                      "graphs_with_parallel_links_on_a_gate_cluster": 2000},
             "thorough": {"spanned_views_checked": 4000000, "dijkstra_targets_checked": 20000000, "filtered_views_checked": 1000000,
-                         "graphs_with_self_loops": 100000, "graphs_with_16_hop_chains": 100000, "subset_views_checked": 1000000},
+                         "graphs_with_self_loops": 100000, "graphs_with_16_hop_chains": 100000, "subset_views_checked": 1000000,
+                         "graphs_with_parallel_links_on_a_gate_cluster": 40000},
         },
     },
     "C05": {
